@@ -16,6 +16,7 @@ import (
 // ---------------------------------------------------------------- router family
 
 type rinst struct {
+	objs   map[string]facade // long-lived Prefix / Resource objects
 	r      *mux.Router[*H]
 	e      *env
 	cfg    *Cfg
@@ -97,6 +98,11 @@ type facade struct {
 }
 
 func (in *rinst) facade(op *Op) facade {
+	if op.Fid != "" {
+		if f, ok := in.objs[op.Fid]; ok {
+			return f
+		}
+	}
 	var f facade
 	n := len(op.Chain)
 	if op.Res {
@@ -411,7 +417,7 @@ func (rn *runner) urlEvent(in, mir *rinst, op *Op, key, rtpath string, isRT bool
 }
 
 func newRinst(cfg *Cfg) (*rinst, string) {
-	in := &rinst{e: &env{}, cfg: cfg, shadow: map[string]map[string]string{}, hcount: map[string]int{}}
+	in := &rinst{e: &env{}, cfg: cfg, shadow: map[string]map[string]string{}, hcount: map[string]int{}, objs: map[string]facade{}}
 	res, _ := guard(func() { in.r = in.e.newRouter(cfg) })
 	return in, res
 }
@@ -466,6 +472,12 @@ func (rn *runner) runRouterCase(c *Case) {
 		w0 := len(in.e.wraps)
 		lastRes := "ok"
 		switch op.Op {
+		case "facade": // create a long-lived Prefix / Resource object; later calls name it by fid
+			fid := op.Fid
+			op.Fid = ""
+			res, _ := guard(func() { in.objs[fid] = in.facade(op) })
+			op.Fid = fid
+			rn.emit(obj("ev", js("facade"), "fid", js(fid), "chain", chainJSON(op.Chain), "isres", jbool(op.Res), "res", js(res), "clobber", jbool(in.e.clobbered())))
 		case "handle":
 			pat, _ := desugar(op)
 			h := in.hid(pat, op.Methods)
@@ -484,7 +496,7 @@ func (rn *runner) runRouterCase(c *Case) {
 			lastRes = res
 			kv := []string{"ev", js("handle"), "pat", js(op.Pat), "methods", jarr(op.Methods), "mws", jarr(op.Mws), "chain", chainJSON(op.Chain),
 				"isres", jbool(op.Res), "h", js(h), "res", js(res), "msg", js(msg), "syn", js(syn), "re", reTable(pat),
-				"wraps", wrapsJSON(in.e.wraps[w0:])}
+				"wraps", wrapsJSON(in.e.wraps[w0:]), "fid", js(op.Fid), "clobber", jbool(in.e.clobbered())}
 			if res == "ok" {
 				in.shadowHandle(pat, op.Methods, h)
 			}
@@ -530,7 +542,7 @@ func (rn *runner) runRouterCase(c *Case) {
 		case "use":
 			res, _ := guard(func() { in.r.Use(in.e.mws(op.Mws)...) })
 			in.nuse += len(op.Mws)
-			kv := []string{"ev", js("use"), "mws", jarr(op.Mws), "res", js(res), "wraps", wrapsJSON(in.e.wraps[w0:])}
+			kv := []string{"ev", js("use"), "mws", jarr(op.Mws), "res", js(res), "wraps", wrapsJSON(in.e.wraps[w0:]), "clobber", jbool(in.e.clobbered())}
 			if mir != nil {
 				r2, _ := guard(func() { mir.r.Use(mir.e.mws(op.Mws)...) })
 				mir.nuse += len(op.Mws)
